@@ -172,6 +172,28 @@ def fuzz_app():
         res.make_partial(ranges.get("bytes"))
         return res
 
+    def partial_of(req, res):
+        ranges = parse_range(req.headers["Range"]) if "Range" in req.headers else {}
+        res.make_partial(ranges.get("bytes"))
+        return res
+
+    # responses that already carry entity headers (stored or proxied object metadata) and are then made partial
+    PRESET = {"Content-Range": "bytes 0-9/10", "Accept-Ranges": "bytes", "ETag": '"e1"', "X-Meta": "m"}
+
+    @app.route("/rangeh")
+    def rangeh(req):
+        return partial_of(req, Response(b"0123456789", headers=dict(PRESET)))
+
+    @app.route("/rangef")
+    def rangef(req):
+        from poorwsgi.response import FileObjResponse
+        return partial_of(req, FileObjResponse(io.BytesIO(b"0123456789"), headers=dict(PRESET)))
+
+    @app.route("/rangeg")
+    def rangeg(req):
+        from poorwsgi.response import GeneratorResponse
+        return partial_of(req, GeneratorResponse((b"%d" % i for i in range(10)), headers=dict(PRESET), content_length=10))
+
     @app.route("/auth")
     def auth(req):
         return str(sorted(req.authorization.items()))
@@ -198,7 +220,7 @@ def extra_oracles(rng, tier):
         env = {"SERVER_NAME": "srv", "SERVER_PORT": "80", "SERVER_PROTOCOL": rng.choice(["HTTP/1.1", "HTTP/1.0", "HTTP/0.9"]),
                "wsgi.url_scheme": "http", "wsgi.errors": io.StringIO()}
         env["REQUEST_METHOD"] = rng.choice(["GET", "HEAD", "POST", "PUT", "PATCH", "DELETE", "OPTIONS", "BREW", "get", "", "G<T"])
-        path = rng.choice(["/", "/echo", "/cookie", "/range", "/auth", "/host", "/u/a/1", "/u/\xc3\xa9/x", "/f", "/d/", "/d",
+        path = rng.choice(["/", "/echo", "/cookie", "/range", "/rangeh", "/rangef", "/rangeg", "/auth", "/host", "/u/a/1", "/u/\xc3\xa9/x", "/f", "/d/", "/d",
                            "", "no-slash", "/\xff\xfe", "/a\x00b", "//", "/../f", "/u/a/99999999999999999999", "/debug-info",
                            "/" + "a" * 5000, "/\xe2\x82", "/d/../f", "/%2e%2e/f", "/d/x.txt"])
         if rng.random() < 0.97:
@@ -217,13 +239,14 @@ def extra_oracles(rng, tier):
             env["CONTENT_TYPE"] = ct
         for key, vals in (("HTTP_COOKIE", ["a=b", "a=b; c", "=;=;", "a=\"b", "\xff", "a b=c", ";" * 50]),
                           ("HTTP_AUTHORIZATION", ["Digest", "Digest username=\"a\"", "Basic x", "Digest \"", "x" * 5000, ""]),
-                          ("HTTP_RANGE", ["bytes=0-0", "bytes=5-2", "bytes=-", "bytes=99-", "x", "bytes=1-2,3-4", "bytes=" + "9" * 5000 + "-"]),
+                          ("HTTP_RANGE", ["bytes=0-0", "bytes=5-2", "bytes=-", "bytes=99-", "x", "bytes=1-2,3-4", "bytes=" + "9" * 5000 + "-",
+                                          "bytes=2-5", "bytes=-3", "bytes=4-", "chars=1-2"]),
                           ("HTTP_HOST", ["h", "h:80", "h:x", "<b>", "", ":", "[::1]:80"]),
                           ("HTTP_ACCEPT", ["text/html", "a;q=x", ",,,", ""]),
                           ("HTTP_X_FORWARDED_HOST", ["f:1", "f:x"]), ("HTTP_X_FORWARDED_PROTO", ["https", "x"]),
                           ("poor_Debug", ["On", "off", ""]), ("poor_DocumentIndex", ["On", "x"]),
                           ("HTTP_TRANSFER_ENCODING", ["chunked"]), ("HTTP_X_REQUESTED_WITH", ["XMLHttpRequest"])):
-            if rng.random() < 0.3:
+            if rng.random() < (0.8 if key == "HTTP_RANGE" and path.startswith("/range") else 0.3):
                 env[key] = rng.choice(vals)
         calls = []
         try:
